@@ -173,6 +173,29 @@ def let_underscore_source(site):
     return bool(st) and len(st) == 1 and st[0]['k'] == 'Local' and st[0]['pat']['k'] == 'Wild' and st[0].get('init') is not None and es(st[0]['init']) == 'source'
 
 
+def field_collection_terms(S, field_sites):
+    """terms whose emptiness means "this struct / variant has no field": the collection the per-field loop runs over and the
+    accumulator the per-field statements are appended to"""
+    from ..terms import analyse_iter, strip_refs
+    out = set()
+    for fs in field_sites:
+        tm = fs.tmpl.terms
+        for c in fs.ctx:
+            if getattr(c, 'k', None) == 'for' or (isinstance(c, dict) and c.get('k') == 'for'):
+                it = c['iter'] if isinstance(c, dict) else c.iter
+                sc = c.get('scope') if isinstance(c, dict) else None
+                try:
+                    out.add(tm.term(analyse_iter(it).base, sc or fs.tmpl.scope))
+                except Exception:
+                    pass
+        ev = getattr(fs.leaf, 'event', None) if fs.leaf is not None else None
+        if ev is not None and ev.kind == 'mcall' and ev.method == 'extend':
+            r = strip_refs(ev.recv)
+            if r['k'] == 'Path':
+                out.add(tm.term(r, ev.scope))
+    return out
+
+
 def find_clone_from(S, site, impl):
     """the optional `fn clone_from` supplied through an impl-item hole"""
     holes = [ii for ii in impl['items'] if ii['k'] == 'Macro' and ii['mac']['name'].startswith(MARK)]
@@ -272,10 +295,12 @@ def check_struct(cx, fn, rep, facts):
         return
     sites = S.kids(k, ms[0][1])
     field_sites = [s for s in sites if not let_underscore_source(s)]
+    subjects = field_collection_terms(S, field_sites)
     for s in sites:
         if let_underscore_source(s):
             at = [a for a in S.atoms(s) if a[0] not in ('data',) and not is_not_copy_guard(a) and not (a[0] == 'empty' and a[2] is False)]
-            okg = all(a[0] == 'shape' or (a[0] == 'empty' and a[2] is True) for a in at)
+            # "nothing to assign" = the field list (or the accumulated per-field statements) is empty — not some other collection
+            okg = all(a[0] == 'shape' or (a[0] == 'empty' and a[2] is True and a[1] in subjects) for a in at)
             if not okg:
                 S.bad('SUM-CLONE', 'clone_from-noop-guard', '`let _ = source;` emitted under %s' % [atom_s(a) for a in at], s)
                 ok = False
